@@ -144,8 +144,13 @@ def norm_pairing(ctx, P, step):
     # per-spin constants
     mc = [x for x in subterms(call_parts(QR)[1][0]) if x.op == "call" and x.args[0].op == "attr"
           and x.args[0].args[1] == "_multiply_constant"]
-    ctx.ob("TS-4", f"{q}: walkers are scaled by the per-spin constants before the QR", len(mc) == 1,
-           f"{len(mc)} _multiply_constant call(s) feeding the QR", step)
+    # ... or multiplied in place / by another helper: what matters is that the per-spin constants (built from
+    # ham_data['h0_prop_fp']) flow into what is factorised
+    qr_in = call_parts(QR)[1][0]
+    flows = any(x.op == "getitem" and x.args[1].op == "const" and x.args[1].args[0] == "h0_prop_fp" for x in subterms(qr_in))
+    ctx.ob("TS-4", f"{q}: walkers are scaled by the per-spin constants before the QR", len(mc) == 1 or (not mc and flows),
+           f"{len(mc)} _multiply_constant call(s) feeding the QR" if mc or not flows else
+           "the constants built from ham_data['h0_prop_fp'] flow into the factorised walkers", step)
     mcf = p.lookup_method(P, "_multiply_constant")
     roles = None
     if len(mc) == 1 and mcf is not None:
